@@ -197,7 +197,7 @@ static void gen_find(fb_output_t *out)
     fprintf(out->fp,
         "#define __%sdefine_find_by_scalar_field(N, NK, TK)\\\n"
         "static inline size_t N ## _vec_find_by_ ## NK(N ## _vec_t vec__tmp, TK key__tmp)\\\n"
-        "__%sfind_by_scalar_field(N ## _ ## NK, vec__tmp, N ## _vec_at, N ## _vec_len, key__tmp, TK)\n",
+        "__%sfind_by_scalar_field(N ## _ ## NK ## _get, vec__tmp, N ## _vec_at, N ## _vec_len, key__tmp, TK)\n",
         nsc, nsc);
     fprintf(out->fp,
         "#define __%sdefine_scalar_find(N, T)\\\n"
@@ -208,9 +208,9 @@ static void gen_find(fb_output_t *out)
         "#define __%sdefine_find_by_string_field(N, NK) \\\n"
         "/* Note: find only works on vectors sorted by this field. */\\\n"
         "static inline size_t N ## _vec_find_by_ ## NK(N ## _vec_t vec__tmp, const char *s__tmp)\\\n"
-        "__%sfind_by_string_field(N ## _ ## NK, vec__tmp, N ## _vec_at, N ## _vec_len, s__tmp)\\\n"
+        "__%sfind_by_string_field(N ## _ ## NK ## _get, vec__tmp, N ## _vec_at, N ## _vec_len, s__tmp)\\\n"
         "static inline size_t N ## _vec_find_n_by_ ## NK(N ## _vec_t vec__tmp, const char *s__tmp, size_t n__tmp)\\\n"
-        "__%sfind_by_string_n_field(N ## _ ## NK, vec__tmp, N ## _vec_at, N ## _vec_len, s__tmp, n__tmp)\n",
+        "__%sfind_by_string_n_field(N ## _ ## NK ## _get, vec__tmp, N ## _vec_at, N ## _vec_len, s__tmp, n__tmp)\n",
         nsc, nsc, nsc);
     fprintf(out->fp,
         "#define __%sdefine_default_find_by_scalar_field(N, NK, TK)\\\n"
@@ -329,7 +329,7 @@ static void gen_union(fb_output_t *out)
         "__## NS ## define_vector_field(ID, N, NK, NS ## generic_vec_t, r)\\\n"
         "static inline T ## _union_vec_t N ## _ ## NK ## _union(N ## _table_t t__tmp)\\\n"
         "{ T ## _union_vec_t uv__tmp; uv__tmp.type = N ## _ ## NK ## _type_get(t__tmp);\\\n"
-        "  uv__tmp.value = N ## _ ## NK(t__tmp);\\\n"
+        "  uv__tmp.value = N ## _ ## NK ## _get(t__tmp);\\\n"
         "  FLATCC_ASSERT(NS ## vec_len(uv__tmp.type) == NS ## vec_len(uv__tmp.value)\\\n"
         "  && \"union vector type length mismatch\"); return uv__tmp; }\n",
         nsc);
@@ -931,12 +931,12 @@ static void gen_helpers(fb_output_t *out)
     fprintf(out->fp,
             "#define __%snested_buffer_as_root(C, N, T, K)\\\n"
             "static inline T ## _ ## K ## t C ## _ ## N ## _as_root_with_identifier(C ## _ ## table_t t__tmp, const char *fid__tmp)\\\n"
-            "{ const uint8_t *buffer__tmp = C ## _ ## N(t__tmp); return __%sread_root(T, K, buffer__tmp, fid__tmp); }\\\n"
+            "{ const uint8_t *buffer__tmp = C ## _ ## N ## _get(t__tmp); return __%sread_root(T, K, buffer__tmp, fid__tmp); }\\\n"
             "static inline T ## _ ## K ## t C ## _ ## N ## _as_typed_root(C ## _ ## table_t t__tmp)\\\n"
-            "{ const uint8_t *buffer__tmp = C ## _ ## N(t__tmp); return __%sread_root(T, K, buffer__tmp, C ## _ ## type_identifier); }\\\n"
+            "{ const uint8_t *buffer__tmp = C ## _ ## N ## _get(t__tmp); return __%sread_root(T, K, buffer__tmp, C ## _ ## type_identifier); }\\\n"
             "static inline T ## _ ## K ## t C ## _ ## N ## _as_root(C ## _ ## table_t t__tmp)\\\n"
             "{ const char *fid__tmp = T ## _file_identifier;\\\n"
-            "  const uint8_t *buffer__tmp = C ## _ ## N(t__tmp); return __%sread_root(T, K, buffer__tmp, fid__tmp); }\n",
+            "  const uint8_t *buffer__tmp = C ## _ ## N ## _get(t__tmp); return __%sread_root(T, K, buffer__tmp, fid__tmp); }\n",
             nsc, nsc, nsc, nsc);
     fprintf(out->fp,
             "#define __%sbuffer_as_root(N, K)\\\n"
